@@ -467,7 +467,7 @@ func (r *SqlManager) transactionHelper(ctx context.Context, operation func(tx *g
 			// Delete the DID Document versions
 			for _, change := range changes {
 				// will also remove changelog via cascade
-				if err := tx.Where("id = ?", change.DIDDocumentVersionID).Delete(&orm.DidDocument{}).Error; err != nil {
+				if err := deleteDocumentVersion(tx, change); err != nil {
 					return err
 				}
 			}
@@ -489,6 +489,16 @@ func (r *SqlManager) transactionHelper(ctx context.Context, operation func(tx *g
 	}
 	// then functional error
 	return errManager
+}
+
+// deleteDocumentVersion deletes the DID document version of a change that was not committed.
+// A DID that was created by the change is deleted as well (its document version is removed via cascade),
+// otherwise the subject would keep DIDs without a document and could never be created again.
+func deleteDocumentVersion(tx *gorm.DB, change orm.DIDChangeLog) error {
+	if change.Type == orm.DIDChangeCreated {
+		return tx.Where("id = ?", change.DIDDocumentVersion.DID.ID).Delete(&orm.DID{}).Error
+	}
+	return tx.Where("id = ?", change.DIDDocumentVersionID).Delete(&orm.DidDocument{}).Error
 }
 
 // applyToDIDDocuments is a helper function that applies an operation to all DID documents of a subject (1 per did method).
@@ -583,7 +593,7 @@ func (r *SqlManager) Rollback(ctx context.Context) {
 			// if one failed, delete all document versions for this transaction_id
 			if !committed {
 				for _, change := range versionChanges {
-					err := tx.Where("id = ?", change.DIDDocumentVersionID).Delete(&orm.DidDocument{}).Error
+					err := deleteDocumentVersion(tx, change)
 					if err != nil {
 						return err
 					}
